@@ -79,7 +79,31 @@ const CALLS: &[Call] = &[
     Call::Stream(0, "ein und zwanzig |dreiundvierzigste hundert", 0.0),
     Call::Stream(1, "een en twintig |drieënvijftigste honderd", 0.0),
     Call::Stream(2, "ventuno |duecentesima mille", 0.0),
+    Call::Rewrite(0, "zwei komma fünf und dreitausend", 0.0),
+    Call::Rewrite(1, "twee komma vijf en drie duizend", 0.0),
+    Call::Rewrite(2, "due virgola cinque e tremila", 0.0),
+    Call::T2d(1, "twee duizend"),
+    Call::T2d(0, "zwei millionen"),
+    Call::T2d(2, "due milioni"),
 ];
+
+/// Every caller thread also works on a builder of its own: builders are plain values and must not
+/// influence each other through anything global.
+fn private_builder_work(t: usize) -> String {
+    use text2num::digit_string::DigitString;
+    let mut out = String::new();
+    for k in 0..6usize {
+        let mut b = DigitString::new();
+        let _ = b.put(if t % 2 == 0 { b"5" } else { b"42" });
+        let _ = b.put_digit_at(b'1' + (k % 8) as u8, 2 + k + t % 3);
+        let _ = b.shift(1 + k % 3);
+        let _ = b.put_digit_at(b'7', 9 + k);
+        let _ = b.fput(b"3");
+        out.push_str(&b.to_string());
+        out.push('|');
+    }
+    out
+}
 
 /// Only the interpreters a run needs are built: constructing the splitter automata is by far
 /// the most expensive part under Miri.
@@ -182,13 +206,20 @@ fn main() {
     drop(private);
     let expected = Arc::new(expected);
     let calls = Arc::new(calls);
+    let builder_expected: Vec<String> = (0..nthreads).map(private_builder_work).collect();
+    let builder_expected = Arc::new(builder_expected);
     let mut handles = vec![];
     for t in 0..nthreads {
         let shared = shared.clone();
         let expected = expected.clone();
         let calls = calls.clone();
+        let builder_expected = builder_expected.clone();
         handles.push(std::thread::spawn(move || {
             let mut bad = vec![];
+            let got = private_builder_work(t);
+            if got != builder_expected[t] {
+                bad.push(format!("thread {t}: private DigitString work gave {got:?}, alone it gives {:?}", builder_expected[t]));
+            }
             for r in 0..rounds {
                 for k in 0..calls.len() {
                     // each thread walks the calls from a different starting point
